@@ -92,6 +92,21 @@ pub fn run(ctx: &mut Ctx) {
     let mut v = vec![];
     for_all_strings(&alpha, if ctx.thorough { 6 } else { 5 }, |s| v.push(s.to_string()));
     for (i, s) in v.iter().enumerate() { let (p, l) = cfgs[i % cfgs.len()]; str_case(ctx, p, l, s); if i % 97 == 0 { nested_roundtrip(ctx, p, l, s); } }
+    // line-structured strings: every combination of up to four lines drawn from lines with different indentation,
+    // blank and whitespace-only lines — the block-string decision and the common-indentation rule work per line
+    let lines = ["", " ", "  ", "a", " a", "  a", "\ta", "a ", " a ", "\"", " \"\"\"", "é"];
+    let mut ls = vec![];
+    for n in 1..=(if ctx.thorough { 5 } else { 4 }) {
+        let mut idx = vec![0usize; n];
+        loop {
+            ls.push(idx.iter().map(|&i| lines[i]).collect::<Vec<_>>().join("\n"));
+            let mut k = n;
+            loop { if k == 0 { break; } k -= 1; if idx[k] + 1 < lines.len() { idx[k] += 1; for j in k + 1..n { idx[j] = 0; } break; } if k == 0 { idx.clear(); break; } }
+            if idx.is_empty() { break; }
+        }
+    }
+    ctx.stat_n("line_structured_strings", ls.len() as u64);
+    for (i, s) in ls.iter().enumerate() { let (p, l) = cfgs[(i / 3) % cfgs.len()]; str_case(ctx, p, l, s); if i % 97 == 0 { nested_roundtrip(ctx, p, l, s); } }
     let pieces = ["\"", "\"\"\"", "\\", "\n", "\r\n", "  ", "\t", "a", "word ", "é", "😀", "\u{0}", "\u{1f}", "\u{feff}", "\u{2028}", "long long long long long long long long long long long long long long text"];
     let n = if ctx.thorough { 200_000 } else { 20_000 };
     for i in 0..n {
